@@ -155,6 +155,13 @@ def run(ck):
               'the lifetime of the %s created by store_chunk lies in [min TTL, max TTL] for every requested TTL (%d abstract states at this site)' % (what, cnt), wit)
     for what in ('chunk record', 'shard records', 'self-announcement', 'manifest expiry'):
         ck.ob('C02.flow', 'C02.flow/store_chunk/%s/present' % what.replace(' ', '-'), what in kinds, store.loc(), 'store_chunk records a lifetime for the %s' % what)
+    # the self-announcement publishes the lifetime it was given: announce_chunk hands its ttl parameter to add_contact unchanged
+    ac_ = P.fn('ephemeralnet::Node::announce_chunk')
+    ck.touch(ac_)
+    adds = [i for i in ac_.walk() if (ac_.nodes[i].get('callee') or '') == 'ephemeralnet::KademliaTable::add_contact']
+    ok_ac = len(adds) == 1 and declref(ac_, ac_.call_args(adds[0])[2], ac_.params[1]['d']) is not None
+    ck.ob('C02.flow', 'C02.flow/announce_chunk/ttl-verbatim', ok_ac, ac_.loc(adds[0]) if adds else ac_.loc(),
+          'announce_chunk passes its ttl parameter itself to dht_.add_contact (the value store_chunk proved to lie in the window is the one published)')
     # the manifest's expiry is written once, from the window-checked `now + ttl` above, and nothing else overwrites it
     exp_sites = [node for (what, node) in seen if what == 'manifest expiry']
     exp_writes = [i for i in store.walk() if store.nodes[i]['k'] in ('CXXOperatorCallExpr', 'BinaryOperator') and store.nodes[i].get('op') == '=' and
